@@ -1,5 +1,6 @@
 pub mod vc_diff;
 pub mod vc_rules;
+pub mod vc_gen;
 pub mod vc_cram;
 pub mod vc_md;
 pub mod vc_config;
@@ -24,6 +25,7 @@ macro_rules! engines {
 engines! {
     vc_diff::VcDiff => ["C01", "C02", "C03"],
     vc_rules::VcRules => ["C04"],
+    vc_gen::VcGen => ["C09"],
     vc_cram::VcCram => ["C07"],
     vc_md::VcMd => ["C06"],
     vc_config::VcConfig => ["C16", "C17"],
